@@ -318,7 +318,7 @@ func runZip(ctx *Ctx) {
 	if ctx.Thorough {
 		nt = 600
 	}
-	names := []string{"f1", "f2.txt", "x.skip", "sp ace", "dot.d", "ü", "bin", ".env", ".f1", "src", "..f", "f1.", "-x", "a.zip", "hostile.zip"}
+	names := []string{"f1", "f2.txt", "x.skip", "sp ace", "dot.d", "ü", "bin", ".env", ".f1", "src", "..f", "f1.", "-x", "a.zip", "hostile.zip", "back\\slash", "r\\2023.txt"}
 	for i := 0; i < nt; i++ {
 		var tree []string
 		used := map[string]bool{}
